@@ -60,6 +60,11 @@ def cases(rng, tier):
     for g in EXTRA_GENS:
         for _ in range(fw.tier_scale(tier, g[1], g[1] * 10)):
             yield g[0](rng)
+    # the same piped observable subscribed twice (oracle only): the second subscription must behave like a fresh one
+    for _ in range(fw.tier_scale(tier, 150, 1500)):
+        c = rng.choice([gen_count, gen_time, gen_time_count])(rng)
+        c.update({"resub": True, "cold": True, "dispose": None, "dw": True, "first_len": rng.choice([5, 15, 30, 60, 120, 400])})
+        yield c
 
 
 def gen_count(rng):
@@ -363,6 +368,35 @@ def run_real(case, buffer):
     return {"log": log, "subs": {k: fw.subs_json((colds.get(k) or h).subscriptions) for k, h in sorted(hots.items())}, "escaped": esc}
 
 
+def run_resub(case, twice):
+    """one piped (buffer) observable over a cold source; subscribed at T0 (disposed after first_len) when `twice`, and
+    again at 1000: returns what the subscription at 1000 sees (times relative to 1000)."""
+    from reactivex.testing import TestScheduler
+
+    s = TestScheduler()
+    cold = s.create_cold_observable(*mkrec([[t - T0, n] for t, n in case["src"] if t >= T0]))
+    o = build(case, {"0": cold}, s, True)
+    out = []
+
+    def sub(record, until):
+        def act(sc, st):
+            t0 = int(s.clock)
+            d = o.subscribe(lambda v: record and out.append([int(s.clock) - t0, ["N", enc(v)]]),
+                            lambda e: record and out.append([int(s.clock) - t0, ["E", err_name(e)]]),
+                            lambda: record and out.append([int(s.clock) - t0, ["C"]]))
+            s.schedule_absolute(until, lambda sc2, st2: d.dispose())
+        return act
+    if twice:
+        s.schedule_absolute(T0, sub(False, T0 + case["first_len"]))
+    s.schedule_absolute(1000, sub(True, 1600))
+    s.schedule_absolute(3000, lambda sc, st: s.stop())
+    try:
+        s.start()
+    except Exception as e:  # noqa
+        out.append(["escaped", err_name(e)])
+    return out
+
+
 def impl(case):
     import reactivex  # noqa: F401  (imports happen before the watchdog is armed)
     import reactivex.operators  # noqa: F401
@@ -372,6 +406,8 @@ def impl(case):
     old = signal.signal(signal.SIGVTALRM, _alarm)
     signal.setitimer(signal.ITIMER_VIRTUAL, 10.0)
     try:
+        if case.get("resub"):
+            return {"resub": [run_resub(case, False), run_resub(case, True)]}
         w = run_real(case, False)
         b = run_real(case, True)
         return {"win": w, "buf": b}
@@ -411,7 +447,7 @@ MODELLED = {"win_count", "win_bound", "win_when", "win_toggle", "win_time", "win
 
 
 def model_request(case):
-    if case["op"] not in MODELLED:
+    if case["op"] not in MODELLED or case.get("resub"):
         return None
     r = {k: v for k, v in case.items() if k not in ("src", "bnd", "closings", "openings")}
     r["t0"] = T0
@@ -433,7 +469,7 @@ def _strip(log):
 
 
 def canon_impl(case, out):
-    if "hang" in out:
+    if "hang" in out or "resub" in out:
         return out
     return {"log": _strip(out["win"]["log"]), "subs": {k: v for k, v in out["win"]["subs"].items()},
             "escaped": out["win"]["escaped"],
@@ -663,6 +699,11 @@ SHAPE_TAG = "[toggle window open when source completes] "
 def oracle(case, out):
     if "hang" in out:
         return "implementation hangs"
+    if "resub" in out:
+        a, b = out["resub"]
+        if fw.key(a) != fw.key(b):
+            return f"second subscription of the same piped observable sees {b}, a fresh one sees {a}"
+        return None
     v = oracle_(case, out)
     if v and toggle_shape(case, out["win"]["log"]):
         return SHAPE_TAG + v
@@ -923,6 +964,8 @@ def classify(case, why):
 def nontrivial(case, out):
     if "hang" in out:
         return True
+    if "resub" in out:
+        return len(out["resub"][0]) >= 2
     ws = windows_of(out["win"]["log"])
     return len(ws) >= 2 and any(w["items"] for w in ws.values())
 
@@ -930,6 +973,9 @@ def nontrivial(case, out):
 def bucket(case, out):
     yield case["op"]
     yield "source:" + ("cold" if case.get("cold") else "hot")
+    if "resub" in out:
+        yield "resubscription"
+        return
     if "hang" in out:
         yield "hang"
         return
@@ -992,7 +1038,8 @@ RULE = ("six window operators (with_count, boundaries, when, toggle, with_time, 
         "and without disposing the window subscribers.  A recorder is subscribed to every emitted window inside the outer on_next. "
         "Compared: the full ordered timed log (outer + per-window notifications), the subscription intervals of every source, "
         "exceptions escaping into the scheduler, for the window and for the buffer operator.  non-trivial = at least two windows "
-        "and at least one element delivered to a window")
+        "and at least one element delivered to a window.  Plus oracle-only re-subscription cases: one piped buffer observable over a cold "
+        "source subscribed twice must give the second subscriber what a fresh one gets")
 ASSUMPTIONS = [
     "single-threaded virtual-time execution (TestScheduler); hot sources, so the global order of same-instant events is the static "
     "(time, creation order, message index) order, with the harness' subscribe/dispose actions after the hot messages of their instant; "
